@@ -850,7 +850,6 @@ var ruleD8 = &Rule{
 
 func init() { register(ruleD8) }
 
-
 // ---------------------------------------------------------------------------------
 // B3
 
